@@ -106,6 +106,11 @@ namespace sim
         int accept_failures  = 0;               // the next n accept4() calls of gated threads fail with EMFILE
         bool park_threads_at_start = false;     // captured threads wait for the controller before running their body
         int connect_failures = 0;               // the next n connect() calls of gated threads fail at once (ENETUNREACH)
+        int block_after_sends = -1;             // >= 0: every descriptor accepts that many send()/sendfile() calls, then answers
+                                                // would-block (held) until it has been released once
+        std::map<int, int> sends_on;            // descriptor -> calls answered so far
+        std::set<int> released_once;
+        bool epoll_ctl_is_a_point = false;      // fine threads also yield before every epoll_ctl()
         bool hold_spares_send = false;          // a held descriptor blocks sendfile() only (header goes out, file body stalls)
         std::set<int> blocked;                  // held descriptors that have answered would-block since they were held
         std::map<int, int> fail_next_write;     // descriptor -> errno for its next send()/sendfile()
@@ -265,6 +270,15 @@ int epoll_ctl(int epfd, int op, int fd, struct epoll_event* ev)
 {
     static auto fn = sim::real<int (*)(int, int, int, epoll_event*)>("epoll_ctl");
     {
+        bool point;
+        {
+            sim::TsanIgnore ign;
+            point = sim::S().epoll_ctl_is_a_point;
+        }
+        if (point && ng_active() && ng_self() >= 0 && ng_is_fine())
+            ng_park_at(3, nullptr); // between a critical section and the change of the poller's interest
+    }
+    {
         sim::TsanIgnore ign;
         sim::State& s = sim::S();
         if (op == EPOLL_CTL_DEL)
@@ -293,6 +307,8 @@ static ssize_t sim_answer(int fd, size_t len, const std::function<ssize_t(size_t
         sim::Answer a { sim::FULL, 0 };
         auto it   = s.plan.find(fd);
         bool held = s.held.count(fd) && s.held[fd];
+        if (s.block_after_sends >= 0 && !held && !s.released_once.count(fd) && s.sends_on[fd]++ >= s.block_after_sends)
+            held = true;
         if (held)
             a = { sim::BLOCK, 0 };
         else if (it != s.plan.end() && !it->second.empty())
@@ -461,6 +477,8 @@ int close(int fd)
         s.plan.erase(fd);
         s.fail_next_write.erase(fd);
         s.blocked.erase(fd);
+        s.sends_on.erase(fd);
+        s.released_once.erase(fd);
     }
     return fn(fd);
 }
@@ -499,7 +517,7 @@ namespace sim
             return false;
         if (ng_kind(a) == 1)
             return ng_mutex_free(ng_addr(a)) != 0;
-        if (ng_kind(a) == 2)
+        if (ng_kind(a) == 2 || ng_kind(a) == 3)
             return true;
         struct pollfd p;
         p.fd      = ng_epfd(a);
@@ -600,6 +618,7 @@ namespace sim
         State& s   = S();
         s.held[fd] = false;
         s.blocked.erase(fd);
+        s.released_once.insert(fd);
         ++s.activity;
         static auto ctl = real<int (*)(int, int, int, epoll_event*)>("epoll_ctl");
         for (auto& kv : s.interest)
